@@ -111,6 +111,8 @@ def job(p: Dict[str, Any]) -> Dict[str, Any]:
             continue
         rec["status"] = "ok"
         rec["digest"] = hashlib.sha256(m.SerializeToString()).hexdigest()[:14]
+        from mc import gspace as G
+        rec["ops"] = hashlib.sha256(repr(sorted(G.op_histogram(m).items())).encode()).hexdigest()[:10]
         problems: List[str] = []
         declared = {x.domain: x.version for x in m.opset_import}
         if declared.get("", declared.get("ai.onnx")) != o:
@@ -161,8 +163,8 @@ def main(tier: str) -> int:
     opsets = [21, 24, newest] if tier == "quick" else list(range(21, newest + 1))
     run.cov["opsets"] = opsets
     run.cov["rule"] = ("every corpus program x every enumerated target opset through the real to_onnx; state = digest of "
-                       "the exported model; transition = one export; non-trivial = (program, opset) whose model differs "
-                       "from the same program's model at another enumerated opset.")
+                       "the exported model; transition = one export; non-trivial = program whose operator "
+                       "histogram differs between two enumerated opsets (an opset-gated lowering choice was exercised).")
     run.assumptions += ["onnx.defs schemas of the installed onnx package define what an opset contains",
                         "ORT executes opsets it supports; otherwise the ONNX reference evaluator; numeric agreement "
                         "across opsets judged at rtol 1e-4 (different but equivalent lowerings)"]
@@ -189,7 +191,7 @@ def main(tier: str) -> int:
                 stats["exports"] += 1
                 run.add("traces_validated_against_impl")
                 run.state(rec["digest"])
-                digests.add(rec["digest"])
+                digests.add(rec.get("ops", rec["digest"]))
                 if rec.get("engine") in ("ort", "ref", "ref-vs-ref"):
                     stats["compared"] += 1
                 if rec.get("unrunnable"):
